@@ -1,2 +1,4 @@
 import PyTreesModel.Status
 import PyTreesModel.Tree
+import PyTreesModel.Names
+import PyTreesModel.Blackboard
